@@ -16,7 +16,8 @@ RULE = ('E1 enumeration of macrobody cards (kind x parameter/orientation/handedn
         'facets in the manual numbering with outward normal computed from the solid; facet surfaces '
         'identified as polynomials, all-plane bodies compared at complete arrangement witnesses, '
         'curved ones on witnesses + lattice; non-trivial = interior and exterior both realised; '
-        'distinct = distinct card text')
+        'distinct = distinct card text; every body also 100 times smaller and ~15 cm from the origin (judged in '
+        'the coordinates of the unit-size body: output surfaces pulled back exactly)')
 ASSUMPTIONS = [
     'macrobody definitions and facet numbering of the MCNP manual (BOX RPP SPH RCC RHP/HEX REC TRC ELL WED ARB)',
     'ELL with positive last entry follows the empirical MCNP rule documented in MacroBodies.ell',
@@ -353,7 +354,48 @@ class Deck3(Deck):
         self.surfs = ['1 ' + body.card]
 
 
+OFF, SCALE = np.array([13.0, -7.0, 5.0]), 1.0e-2
+# per kind: 'p' position (offset + scale), 'v' vector or length (scale), 'i' dimensionless
+LAYOUT = {'box': 'ppp' + 'v' * 9, 'sph': 'pppv', 'rcc': 'pppvvvv', 'rhp': 'ppp' + 'v' * 12, 'hex': 'ppp' + 'v' * 12,
+          'rec': 'ppp' + 'v' * 9, 'trc': 'pppvvvvv', 'wed': 'ppp' + 'v' * 9, 'arb': 'p' * 24 + 'i' * 6}
+
+
+def scaled_card(card):
+    """the card of the same body 100 times smaller, far from the origin (details of 10-100 micrometres at ~15 cm)"""
+    toks = card.split()
+    kind, vals = toks[0].lower(), [float(t) for t in toks[1:]]
+    if kind == 'rpp':
+        out = [OFF[i // 2] + SCALE * v for i, v in enumerate(vals)]
+    elif kind == 'ell':
+        if vals[6] > 0:      # two foci, major radius
+            out = [OFF[i % 3] + SCALE * v for i, v in enumerate(vals[:6])] + [SCALE * vals[6]]
+        else:                # centre, major axis vector, -minor radius
+            out = [OFF[i] + SCALE * v for i, v in enumerate(vals[:3])] + [SCALE * v for v in vals[3:]]
+    else:
+        lay = LAYOUT[kind][:len(vals)]
+        out = []
+        for i, (v, t) in enumerate(zip(vals, lay)):
+            out.append(OFF[i % 3] + SCALE * v if t == 'p' else SCALE * v if t == 'v' else v)
+    return '%s %s' % (toks[0], ' '.join(repr(float(x)) if not (t == 'i') else str(int(x))
+                                       for x, t in zip(out, (LAYOUT.get(kind, 'v' * 99) + 'v' * 99))))
+
+
+def placed(build):
+    def b(ch):
+        st = build(ch)
+        if ch.choose('placement', ['unit', 'tiny-far']) == 'tiny-far':
+            st.frame = (OFF, SCALE)
+            st.surfs = ['1 ' + scaled_card(st.body.card)]
+        return st
+    return b
+
+
 def scenarios(tier):
+    q = tier == 'quick'
+    return [Scn(s.name, placed(s.build), s.quick, s.thorough, s.note) for s in _scenarios(tier)]
+
+
+def _scenarios(tier):
     q = tier == 'quick'
     return [
         Scn('box', b_box, None, None, 'right boxes: 5 rotations x 3 bases x 6 permutations x 8 sign patterns'),
@@ -388,6 +430,12 @@ def check_state(scn, st, flip=None):
     cls, msg = oracle.structural_cls(t4, st.options)
     if cls:
         return verdict(False, st, cls=cls, msg=msg, out=sha(r.body))
+    if getattr(st, 'frame', None) is not None:
+        # the tiny, far-away copy is judged in the coordinates of the unit-size body
+        t4 = t4read.pullback(t4, *st.frame)
+        if t4 is None:
+            return verdict(True, st, out=sha(r.body), nontrivial=False, stats={'tiny_far_unsupported_kind': 1})
+        kind = kind + '@tiny-far'
     matches, unmatched = oracle.identify_surfaces(t4, body.facets)
     if unmatched:
         return verdict(False, st, cls={'kind': 'locus', 'body': kind},
@@ -410,7 +458,9 @@ def check_state(scn, st, flip=None):
         exp[10 + k] = fv > 0
         exp[20 + k] = fv < 0
     bad = oracle.compare_cells(t4, P, exp)
-    stats = {'probe_points': len(P), 'bodies': {kind}, 'complete_witness_states': int(info['complete'])}
+    stats = {'probe_points': len(P), 'bodies': {kind.split('@')[0]}, 'complete_witness_states': int(info['complete'])}
+    if '@' in kind:
+        stats['tiny_far_states'] = 1
     if bad:
         which = sorted(set(b.split(':')[0] for b in bad))
         probes = []
